@@ -208,7 +208,7 @@ def cache_codec_rules(ctx, rule='R4'):
         attrs = {t.attr for s in walk_own(k.method('__init__').node) if isinstance(s, ast.Assign) for t in s.targets
                  if isinstance(t, ast.Attribute) and isinstance(t.value, ast.Name) and t.value.id == 'self'}
         uncached = attrs - set(ekeys) - set(REVIEWED_UNCACHED)
-        ctx.inst(rule, (path, cname), 'all-attributes-cached', not uncached, 'element attributes not cached and not in the reviewed exception table: %s' % sorted(uncached))
+        ctx.inst(rule, (path, cname), 'all-attributes-cached', not uncached, 'element attributes not cached and not in the reviewed exception table: %s' % sorted(uncached), reads=[enc, dec])
 
 
 
